@@ -211,6 +211,8 @@ class Xml:
         self.out = []
         self.depth = 0
         self.used = set()
+        self.attr_hook = None      # C18: adds foreign attributes to standard elements outside prototypes
+        self.in_prototype = False
 
     def sep(self):
         l = self.lex
@@ -223,6 +225,8 @@ class Xml:
 
     def attrs(self, at):
         items = list(at)
+        if self.attr_hook is not None and not self.in_prototype:
+            items = self.attr_hook(items)
         if self.lex["attr_order"] == "shuffled":
             self.r.shuffle(items)
             self.used.add("attribute-order-shuffled")
@@ -368,6 +372,8 @@ def blob_xml(x, tag, off, length):
 def build_xml(scene, offsets, r, lex, hooks=None):
     """offsets: {('pc',i): phys, ('img',i,'visual'|'proj','blob'|'mask'): phys}; hooks: optional insertion callbacks (C18)"""
     x = Xml(r, lex)
+    if hooks and hooks.get("attrs"):
+        x.attr_hook = hooks["attrs"]
     decl = {"full": '<?xml version="1.0" encoding="UTF-8"?>', "short": "<?xml version='1.0'?>", "standalone": '<?xml version="1.0" encoding="UTF-8" standalone="yes"?>', "none": ""}[lex["decl"]]
     if lex["decl"] != "full":
         x.used.add("xml-declaration:" + lex["decl"])
@@ -452,8 +458,10 @@ def build_xml(scene, offsets, r, lex, hooks=None):
             H("pc:before-points")
             x.open("points", [("type", "CompressedVector"), ("fileOffset", offsets[("pc", i)]), ("recordCount", pc["records"])])
             x.open("prototype", [("type", "Structure")])
+            x.in_prototype = True
             for rec in pc["prototype"]:
                 record_xml(x, rec, r, lex, x.used)
+            x.in_prototype = False
             x.close("prototype")
             if lex.get("codecs"):
                 x.leaf("codecs", [("type", "Vector"), ("allowHeterogeneousChildren", 1)], "")
